@@ -756,10 +756,23 @@ def _cmp_facts(fn):
             l = op_base(t["d"])
             if l is None:
                 continue
-            tk = fn.local_ty(l)["k"] if len(op_place(t["d"])) == 1 else None
+            pl = op_place(t["d"])
+            d_op = t["d"]
+            tk = fn.local_ty(l)["k"] if len(pl) == 1 else None
+            if len(pl) == 2 and re.match(r"f:\d+$", str(pl[1])):
+                # match (a.len(), b) { (1, None) => .. }: the scrutinee is a field of a tuple built just before
+                dd = fn.single_def(l)
+                if dd and dd[1] != "term" and dd[2]["k"] == "agg" and dd[2].get("ak") == "tuple":
+                    idx = int(pl[1][2:])
+                    if idx < len(dd[2]["ops"]):
+                        d_op = dd[2]["ops"][idx]
+                        bl = op_base(d_op)
+                        if bl is not None and len(op_place(d_op)) == 1:
+                            tk = fn.local_ty(bl)["k"]
+                            l = bl
             if tk in INT_MAX:
                 for v, tb in t["ts"]:
-                    out.append((b, tb, "Eq", t["d"], {"k": {"int": v, "ty": fn.locals[l]["ty"], "s": str(v)}}))
+                    out.append((b, tb, "Eq", d_op, {"k": {"int": v, "ty": fn.locals[l]["ty"], "s": str(v)}}))
     # x.contains(&v) on a range literal:  on the true edge  lo <= v  and  v < hi  (or v <= hi)
     for c in fn.calls:
         m = re.search(r"ops::range::(Range|RangeInclusive|RangeFrom|RangeTo|RangeToInclusive)::<[^>]*>::contains$", c.path or "")
@@ -1004,12 +1017,51 @@ def s_select(prog, fn, edge):
 
 # ---------------------------------------------------------------------------- evaluation over a scope
 
+def _entry_files(prog):
+    """file(s) of the function(s) each table entry names: from the analysed program, else from the committed fallback map
+    (tables/panic_table_files.json, written by tools/gen_table_files.py) when the named function no longer exists"""
+    import json
+    import os
+    from ..tables.panic_table import T as TABLE
+    cached = getattr(prog, "_entry_files", None)
+    if cached is not None:
+        return cached
+    fb = {}
+    pth = os.path.join(os.path.dirname(os.path.dirname(os.path.abspath(__file__))), "tables", "panic_table_files.json")
+    if os.path.exists(pth):
+        fb = json.load(open(pth))
+    out = {}
+    for i, ent in enumerate(TABLE):
+        files = set(f.file for k, f in prog.fns.items() if re.search(ent["fn"], k))
+        if not files:
+            files = set(fb.get(ent["fn"], []))
+        out[i] = files
+    prog._entry_files = out
+    return out
+
+
 def evaluate_scope(chk, prog, scope_keys, rule="P", crates=("redproxy_rs",), skip_fn=None, consequence="aborts the process (panic=abort)"):
     """enumerate + discharge every panic edge of the functions in scope; findings for the rest"""
     from ..tables.panic_table import T as TABLE
     from . import anchors
     used = {}
     n_edges = 0
+    pending = []
+
+    def settle(f, e, what, root, desc, i, ent, how=""):
+        a_ok, a_detail = True, ""
+        if ent.get("anchor"):
+            a_ok, a_detail = anchors.check(prog, ent["anchor"])
+        if a_ok:
+            used[i] = used.get(i, 0) + 1
+            chk.instance(rule + "/T-" + ent["cat"], e.where(), desc, True,
+                         ent["why"] + ((" [anchor %s: %s]" % (ent["anchor"], a_detail)) if ent.get("anchor") else "") + how)
+            return
+        chk.instance(rule + "/T-" + ent["cat"], e.where(), desc, False, "anchor %s failed: %s" % (ent["anchor"], a_detail))
+        chk.finding(rule, f.key, what, root, e.where(),
+                    "panic edge %s on `%s` in %s was safe only because: %s -- but that no longer holds: %s; it now %s" % (
+                        what, root, f.path, ent["why"], a_detail, consequence))
+
     for k in sorted(scope_keys):
         f = prog.fns.get(k)
         if f is None or f.crate not in crates:
@@ -1028,7 +1080,7 @@ def evaluate_scope(chk, prog, scope_keys, rule="P", crates=("redproxy_rs",), ski
             if ok:
                 chk.instance(rule + "/" + (tag or "auto"), e.where(), desc, True, why, nontrivial=(tag not in ("info", "D-macro-dep")))
                 continue
-            # reasoned table
+            # reasoned table: exact site (function, kind, operand)
             hit = None
             for i, ent in enumerate(TABLE):
                 if re.search(ent["fn"], f.key) and re.search(ent["what"], what) and re.search(ent["root"], root):
@@ -1037,25 +1089,40 @@ def evaluate_scope(chk, prog, scope_keys, rule="P", crates=("redproxy_rs",), ski
                     hit = (i, ent)
                     break
             if hit:
-                i, ent = hit
-                a_ok, a_detail = True, ""
-                if ent.get("anchor"):
-                    a_ok, a_detail = anchors.check(prog, ent["anchor"])
-                if a_ok:
-                    used[i] = used.get(i, 0) + 1
-                    chk.instance(rule + "/T-" + ent["cat"], e.where(), desc, True,
-                                 ent["why"] + ((" [anchor %s: %s]" % (ent["anchor"], a_detail)) if ent.get("anchor") else ""))
-                    continue
-                chk.instance(rule + "/T-" + ent["cat"], e.where(), desc, False, "anchor %s failed: %s" % (ent["anchor"], a_detail))
-                chk.finding(rule, f.key, what, root, e.where(),
-                            "panic edge %s on `%s` in %s was safe only because: %s -- but that no longer holds: %s; it now %s" % (
-                                what, root, f.path, ent["why"], a_detail, consequence))
+                settle(f, e, what, root, desc, hit[0], hit[1])
                 continue
-            chk.instance(rule + "/open", e.where(), desc, False, why or "no guard found")
-            chk.finding(rule, f.key, what, root, e.where(),
-                        "reachable panic edge %s on `%s` in %s%s: not dominated by a guard the checker can verify and not in the reasoned table; "
-                        "if the value can be chosen by a peer or the configuration this %s" % (
-                            what, root, f.path, (" (" + why + ")") if why else "", consequence))
+            pending.append((f, e, what, root, desc, why))
+
+    # second pass: a site whose function or operand was renamed, or that moved into a helper in the same file.  An entry can be
+    # reused this way only with capacity its own site did not consume (that site is gone), for the same panic kind in the same
+    # file, when the match is unambiguous; its reason and anchor are re-checked as for an exact match.
+    efiles = _entry_files(prog)
+    scope_set = set(scope_keys)
+    for (f, e, what, root, desc, why) in pending:
+        cands = []
+        for i, ent in enumerate(TABLE):
+            if used.get(i, 0) >= ent.get("max", 1) or not re.search(ent["what"], what):
+                continue
+            same_fn = re.search(ent["fn"], f.key) is not None
+            same_file = f.file in efiles.get(i, ())
+            same_root = re.search(ent["root"], root) is not None if ent["root"] else True
+            # the entry's own site must really be gone: its named functions (if any still exist and are in scope) were all
+            # evaluated in pass 1, so spare capacity means fewer matching edges than the table expected
+            if same_fn and not same_root:
+                cands.append((i, ent, "operand renamed"))
+            elif not same_fn and same_file and same_root:
+                cands.append((i, ent, "moved or renamed within %s" % f.file))
+        peers = [x for x in pending if x[0].file == f.file and x[2] == what]
+        spare = sum(TABLE[i].get("max", 1) - used.get(i, 0) for i in set(c[0] for c in cands))
+        if cands and (len(set(c[0] for c in cands)) == 1 or len(peers) <= spare):
+            i, ent, how = cands[0]
+            settle(f, e, what, root, desc, i, ent, " [site matched by file and panic kind: %s]" % how)
+            continue
+        chk.instance(rule + "/open", e.where(), desc, False, why or "no guard found")
+        chk.finding(rule, f.key, what, root, e.where(),
+                    "reachable panic edge %s on `%s` in %s%s: not dominated by a guard the checker can verify and not in the reasoned table; "
+                    "if the value can be chosen by a peer or the configuration this %s" % (
+                        what, root, f.path, (" (" + why + ")") if why else "", consequence))
     return n_edges
 
 
